@@ -142,6 +142,8 @@ func tplByName(names ...string) []chainx.Tpl {
 	for _, n := range names {
 		if n == anchorName {
 			out = append(out, anchorTpl())
+		} else if n == oracleSetupName {
+			out = append(out, oracleSetupTpl())
 		} else {
 			out = append(out, chainx.TplByName(n)...)
 		}
@@ -159,6 +161,7 @@ type snap struct {
 	Root      string   `json:"state_root"`
 	Storage   string   `json:"storage_digest"`
 	Mempool   []string `json:"mempool"`
+	Natives   string   `json:"native_getters"` // policy values, committee and validators as the node's getters (native caches) report them
 }
 
 func (a snap) diff(b snap, headerToo bool) []string {
@@ -173,6 +176,7 @@ func (a snap) diff(b snap, headerToo bool) []string {
 	add("StateRoot", a.Root, b.Root)
 	add("storage", a.Storage, b.Storage)
 	add("mempool", strings.Join(a.Mempool, ","), strings.Join(b.Mempool, ","))
+	add("native getters", a.Natives, b.Natives)
 	if headerToo {
 		add("HeaderHeight", fmt.Sprint(a.HdrHeight), fmt.Sprint(b.HdrHeight))
 		add("CurrentHeaderHash", a.HdrHash, b.HdrHash)
@@ -208,6 +212,7 @@ func takeSnap(n *chainx.Node, maxID int32) (snap, error) {
 	for _, t := range bc.GetMemPool().GetVerifiedTransactions() {
 		s.Mempool = append(s.Mempool, t.Hash().StringLE()[:16])
 	}
+	s.Natives = nativeGetters(n)
 	return s, nil
 }
 
@@ -242,6 +247,7 @@ type stateCtx struct {
 	cv2     *chainView      // what the predicate knows about the state after b
 	vals2   keys.PublicKeys // validators of the height of b2
 	ph      map[string]*poolHist
+	chain   []link // the valid blocks at tip+1 .. tip+4 (b, b2, b3, b4), see ext_test.go
 	bRoot   string // reference state root after b (replica that only ever saw b)
 
 	sp        map[string]*transaction.Transaction // special transactions, see buildSpecials
@@ -312,7 +318,7 @@ func buildState(sc *chainx.Scenario, h []int, md mode) (c *stateCtx, err error) 
 		}
 	}
 	c.hasAnchor = len(cv.Conflicts[anchorZ(1, c.magic).Hash()]) > 0
-	accs := []util.Uint160{n.Validator.ScriptHash(), n.Committee.ScriptHash()}
+	accs := []util.Uint160{n.Validator.ScriptHash(), n.Committee.ScriptHash(), nativehashes.OracleContract}
 	for i := 1; i <= 8; i++ {
 		accs = append(accs, chainx.Acc(i).ScriptHash())
 	}
@@ -354,6 +360,9 @@ func buildState(sc *chainx.Scenario, h []int, md mode) (c *stateCtx, err error) 
 		return nil, fmt.Errorf("b tx2: %w", err)
 	}
 	if err = c.buildSpecials(n, tipH); err != nil {
+		return nil, err
+	}
+	if err = c.buildSpecialsExt(n, tipH, txs); err != nil {
 		return nil, err
 	}
 	b, err := n.NewBlock(txs...)
@@ -417,6 +426,9 @@ func buildState(sc *chainx.Scenario, h []int, md mode) (c *stateCtx, err error) 
 		return nil, err
 	}
 	c.b2Root = sr.Root.StringLE()
+	if err = c.extendChain(n, hist); err != nil {
+		return nil, fmt.Errorf("harness: chain extension: %w", err)
+	}
 	c.buildPoolHist()
 	// features (for the coverage report and the choice of quick states)
 	idx := c.b.Index
